@@ -150,6 +150,31 @@ theorem control_roundtrip (pdu size : Nat) (h : Hdr) (hh : h.WF) (body rest : By
   simp only
   rw [if_neg (by simp [hp]), if_neg (by simp [hl]), readExact_append _ _ _ hb]
 
+/-- `X::try_read` is `X::read` on every stream whose first header is not an Error PDU's; on an Error PDU's header it
+returns that header after exactly eight octets; it never fails where `read` succeeds. -/
+theorem try_read_spec (pdu size : Nat) (s : Bytes) :
+    (∀ h r, readHdr s = .ok (h, r) → h.pdu = pduError → tryReadFixed pdu size s = .ok (.inr h, r)) ∧
+    (∀ h r, readHdr s = .ok (h, r) → h.pdu ≠ pduError →
+      tryReadFixed pdu size s = (match readFixed pdu size s with
+        | .ok (h', b, rest) => .ok (.inl (h', b), rest)
+        | .error e => .error e)) ∧
+    (∀ e, readHdr s = .error e → tryReadFixed pdu size s = .error e) := by
+  refine ⟨?_, ?_, ?_⟩
+  · intro h r hr hp
+    unfold tryReadFixed; rw [hr]; simp [hp]
+  · intro h r hr hp
+    unfold tryReadFixed readFixed; rw [hr]
+    simp only [hp, if_false]
+    split
+    · rfl
+    · split
+      · rfl
+      · cases readExact (size - sizeHeader) r with
+        | error e => rfl
+        | ok q => rfl
+  · intro e he
+    unfold tryReadFixed; rw [he]
+
 /-! ## Non-vacuity -/
 
 def exItem : Item := .v4 ⟨1, 4, 0, 20⟩ 1 24 24 0 3232235776 64496
